@@ -196,13 +196,23 @@ def run(chk, facts_dir, tier):
         if unk:
             chk.notes.append("%s: unmodelled combinators %s (treated as any-string leaves that may commit-fail)" % (nm, unk[:4]))
         gram[nm] = ("seq", [node, ("eof",)])
+    # and_then closures outside parser.rs: derive their string predicate from the MIR (exact / case-insensitive comparisons with constants)
+    for nm, top in gram.items():
+        for commit in token_andthens(top):
+            if len(commit) > 3 and commit[3] and not commit[3].startswith(S + "parser::"):
+                pred = derive_string_predicate(prog, commit[3])
+                if pred is not None:
+                    G.DERIVED_ACCEPT[commit[3]] = pred
+                    chk.notes.append("%s: acceptance of %s derived from its MIR" % (nm, commit[3]))
     # leaves used must be in the tables
     for nm, top in gram.items():
         for (kind, f, commit) in all_leaves(top):
             if kind == "prim" and f not in G.PRIM_ACCEPT:
                 raise Inconclusive("%s uses leaf parser.rs::%s which is not in the frozen leaf table" % (nm, f))
-            if commit and commit not in G.ANDTHEN_ACCEPT and commit != "parser":
-                raise Inconclusive("%s uses and_then in %s which is not in the frozen leaf table" % (nm, commit))
+            pass
+        for commit in token_andthens(top):
+            if G.andthen_accept(commit) is None:
+                raise Inconclusive("%s applies an and_then closure (%s) to a single token whose acceptance could not be derived and is not in the frozen leaf table" % (nm, commit[3] if len(commit) > 3 else commit[2]))
 
     # ---------------- G1 / G2
     n12 = 0
@@ -402,12 +412,30 @@ def all_leaves(n, acc=None, commit=None):
     elif k == "fn":
         all_leaves(n[2], acc, commit)
     elif k == "andthen":
-        all_leaves(n[1], acc, n[2])
+        all_leaves(n[1], acc, n if G.single_token(n[1]) else commit)
     elif k in ("seq", "alt"):
         for c in n[1]:
             all_leaves(c, acc, commit)
     elif k in ("opt", "many", "many1", "attempt"):
         all_leaves(n[1], acc, commit)
+    return acc
+
+
+def token_andthens(n, acc=None):
+    """every and_then node that is applied to a single token (its closure decides whether that token is accepted)"""
+    acc = [] if acc is None else acc
+    k = n[0]
+    if k == "fn":
+        token_andthens(n[2], acc)
+    elif k == "andthen":
+        if G.single_token(n[1]):
+            acc.append(n)
+        token_andthens(n[1], acc)
+    elif k in ("seq", "alt"):
+        for c in n[1]:
+            token_andthens(c, acc)
+    elif k in ("opt", "many", "many1", "attempt", "not"):
+        token_andthens(n[1], acc)
     return acc
 
 
@@ -460,3 +488,75 @@ def alt_shadow(chk, nm, top, fn, body):
             walk(n[1], ctx)
 
     walk(top, [])
+
+
+STR_PLUMBING = ("deref", "as_ref", "as_str", "borrow", "into", "from", "message_format", "message_static_message", "to_string", "new", "new_display", "format", "must_use",
+                "unexpected_format", "expected_format", "clone", "map_err", "ok_or", "ok_or_else", "unexpected_static_message", "expected_static_message",
+                "unexpected", "expected", "message", "unexpected_token", "other")
+
+
+def derive_string_predicate(prog, closure_path):
+    """closure |s| -> Result: if it only compares s (exactly or ignoring ASCII case) with string constants and returns Err on a match,
+    return accept(str); else None"""
+    from ..gate import switch_on, edge_dominates
+    from ..util import ok_return_blocks
+    b = prog.bodies.get(closure_path)
+    if b is None:
+        return None
+    errs = [i for i, j, s in b.assigns() if s["lhs"]["l"] == 0 and not s["lhs"]["p"] and s["rv"]["k"] == "agg" and s["rv"]["ak"].endswith("Result::Err")]
+    oks = [i for i, s in ok_return_blocks(b)]
+    if not errs or not oks:
+        return None
+    exact, ci = set(), set()
+    from ..flow import Ev, strip
+    ev = Ev(prog, b)
+
+    def const_args(bi, t):
+        out = []
+        for a in t["args"]:
+            if "c" in a and '"' in str(a.get("c")):
+                out.append({"c": str(a["c"])})
+                continue
+            term = strip(ev.operand(a, (bi, "T")))
+            if term[0] == "const" and '"' in str(term[1]):
+                out.append({"c": str(term[1])})
+        return out
+
+    for bi, t in b.calls():
+        c = b.callee_decl(t) or ""
+        last = c.rsplit("::", 1)[-1]
+        consts = const_args(bi, t)
+        if last in ("eq", "ne") and ("PartialEq" in c) and consts:
+            K = re.search(r'"((?:[^"\\]|\\.)*)"', consts[0]["c"]).group(1)
+            sw = switch_on(b, t["target"], t["dest"]["l"]) if t.get("target") is not None else None
+            if not sw:
+                return None
+            eq_edge = sw[0] if last == "eq" else sw[1]
+            reaches_err = any(e in (b.reach_from([eq_edge]) | {eq_edge}) for e in errs)
+            reaches_ok = any(o in (b.reach_from([eq_edge]) | {eq_edge}) for o in oks)
+            if reaches_err and not reaches_ok:
+                exact.add(K)
+            elif reaches_ok and not reaches_err:
+                continue      # accepted when equal: no restriction from this comparison
+            else:
+                return None
+        elif last == "eq_ignore_ascii_case" and consts:
+            K = re.search(r'"((?:[^"\\]|\\.)*)"', consts[0]["c"]).group(1)
+            sw = switch_on(b, t["target"], t["dest"]["l"]) if t.get("target") is not None else None
+            if not sw:
+                return None
+            reaches_err = any(e in (b.reach_from([sw[0]]) | {sw[0]}) for e in errs)
+            reaches_ok = any(o in (b.reach_from([sw[0]]) | {sw[0]}) for o in oks)
+            if reaches_err and not reaches_ok:
+                ci.add(K.lower())
+            elif not reaches_err:
+                continue
+            else:
+                return None
+        elif last in STR_PLUMBING or "fmt" in c or "Arguments" in c:
+            continue
+        else:
+            return None
+    if not exact and not ci:
+        return None
+    return lambda s_: s_ not in exact and s_.lower() not in ci
